@@ -11,10 +11,14 @@ namespace Mb.Sim
 open Mb
 
 /-- the faults that correspond to the simulator's own consistency assertions (and the model's
-    termination markers) -/
+    termination markers), plus the division by zero of `NetworkBottleneck::new` (only possible
+    for a packets-per-second limit of 0, which is outside the property: limits are >= 1) -/
 def SimFault.isBug : SimFault → Bool
-  | .timeBackwards | .noInternal | .noAction | .cancelScheduled | .timerScheduled | .fuel | .diverge => true
+  | .timeBackwards | .noInternal | .noAction | .cancelScheduled | .timerScheduled | .fuel | .diverge | .divZero => true
   | _ => false
+
+/-- the packets-per-second limit `NetworkBottleneck::new` uses -/
+def effPps (net : Network) (queuePps : Option Nat) : Nat := net.pps.getD (queuePps.getD usizeMax)
 
 /-- slots of the action timers only ever hold SendPadding / BlockOutgoing -/
 def actionOK : TAction → Bool
@@ -645,7 +649,8 @@ theorem loop_total (args : Args) : ∀ (fuel : Nat) (st : St σ) (iters cnt : Na
           exact ih st' (iters + 1) (bump args r cnt) (hst.2 r st' hs) f h
 
 theorem initState_total {mc ms : List Machine} {sq : SimQueue} {a : Args} {orc : σ} :
-    (∀ f, initState ρ mc ms sq a orc = .error f → f.isBug = false) ∧
+    (∀ f, initState ρ mc ms sq a orc = .error f →
+      f.isBug = false ∨ (f = .divZero ∧ effPps a.network sq.maxPps = 0)) ∧
     (∀ st, initState ρ mc ms sq a orc = .ok st → st.slotsOK) := by
   have sideNew : ∀ (m : List Machine) (t0 : Int) (fp fb : F64) (o : σ),
       (∀ f, Side.new ρ m t0 fp fb o = .error f → f.isBug = false) ∧
@@ -671,19 +676,24 @@ theorem initState_total {mc ms : List Machine} {sq : SimQueue} {a : Args} {orc :
     · unfold firstTimeE at h
       split at h
       · cases h
-      · cases h; rfl
+      · cases h; exact Or.inl rfl
     · rw [bind_error_iff] at h
       rcases h with h | ⟨⟨c, o1⟩, _, h⟩
-      · exact (sideNew _ _ _ _ _).1 f h
+      · exact Or.inl ((sideNew _ _ _ _ _).1 f h)
       · rw [bind_error_iff] at h
         rcases h with h | ⟨⟨s, o2⟩, _, h⟩
-        · exact (sideNew _ _ _ _ _).1 f h
+        · exact Or.inl ((sideNew _ _ _ _ _).1 f h)
         · rw [bind_error_iff] at h
           rcases h with h | ⟨net, _, h⟩
           · unfold Bottleneck.new at h
             simp only [] at h
             split at h
-            · cases h; rfl
+            · rename_i hz
+              cases h
+              refine Or.inr ⟨rfl, ?_⟩
+              unfold effPps
+              have : (2 : Nat) ^ 32 - 1 ≠ 0 := by decide
+              omega
             · cases h
           · cases h
   · intro st h
